@@ -14,6 +14,8 @@ TRUSTED = [
     'pyvc: the VC generator/symbolic executor written for this task (unverified; guarded by mutant self-test, CPython cross-check, cover obligations)',
     'z3 5.1 (python API); thorough tier also /usr/bin/cvc5 1.0.3 and /usr/bin/z3 4.8.12 on exported SMT-LIB',
     'python semantics assumed by the encoding: ints mathematical, floats as reals, left-to-right evaluation, Element identity equality, no threads',
+    'objects at function entry are as their real constructor (MosFile.__init__, MosElement.__init__) leaves them: state kept on an object between '
+    'calls is covered only by the clause running_order_object_holds_no_detached_element and by the same-object histories of the bounded check',
 ]
 
 ASSUMED_DOC = {
@@ -24,7 +26,7 @@ ASSUMED_DOC = {
     'A-COPY': 'copy.deepcopy(e) is a fresh isomorphic subtree',
     'A-NUM': 'int()/float() exact on numeric strings; float arithmetic treated as real arithmetic',
     'A-DT': 'dateutil parse is a function on parseable strings; datetime + timedelta is addition of seconds',
-    'A-STR': 'str.strip/startswith/endswith are uninterpreted but functional',
+    'A-STR': 'str.strip/startswith/endswith/replace/lower/upper/decode/encode are uninterpreted but functional',
     'A-WARN': 'warnings.warn(m, c) records category c (raises it under -W error)',
     'A-IO': 'print / sys.stderr.write / file.write append to the respective ghost log',
     'A-LOG': 'logging calls have no effect on program state and never raise',
@@ -80,7 +82,9 @@ def run_property(prop, tier, jobs):
     pending_contracts = set()
     while todo:
         tasks = [(q, prop, timeout_ms, tier == 'thorough') for q in todo]
-        with ctx.Pool(min(jobs, len(tasks))) as pool:
+        # one fresh process per function: the verdict on a function must not depend on which functions the same worker
+        # process happened to verify before it (z3 term numbering, fresh-name counters)
+        with ctx.Pool(min(jobs, len(tasks)), maxtasksperchild=1) as pool:
             batch = pool.map(worker, tasks, chunksize=1)
         results.extend(batch)
         done |= set(todo)
